@@ -34,6 +34,7 @@ type frame struct {
 	cur              ssa.Instruction
 	loopCount        map[*ssa.BasicBlock]int
 	symLoop          bool
+	racy             int
 }
 
 func (fr *frame) posString() string {
@@ -180,7 +181,36 @@ const (
 	kJump
 )
 
+// racyPoint: in racy mode every access to shared memory made by code of the scoped packages is a
+// scheduling point (used where a property is about unsynchronised access).
+func (m *Machine) racyPoint(fr *frame) {
+	if m.racyScope == "" || len(m.gs) < 2 || m.preempts >= m.opts.Preempt {
+		return
+	}
+	if fr.racy == 0 {
+		fr.racy = 2
+		if strings.Contains(fr.fn.String(), m.racyScope) && !strings.Contains(fr.fn.String(), "zz") {
+			fr.racy = 1
+		}
+	}
+	if fr.racy == 1 {
+		m.preemptPoint()
+	}
+}
+
 func (m *Machine) visitInstr(fr *frame, instr ssa.Instruction) int {
+	if m.racyScope != "" {
+		switch in := instr.(type) {
+		case *ssa.MapUpdate, *ssa.Lookup, *ssa.Range, *ssa.Store:
+			m.racyPoint(fr)
+		case *ssa.UnOp:
+			if in.Op == token.MUL {
+				if _, isAlloc := in.X.(*ssa.Alloc); !isAlloc {
+					m.racyPoint(fr)
+				}
+			}
+		}
+	}
 	switch instr := instr.(type) {
 	case *ssa.DebugRef:
 	case *ssa.UnOp:
